@@ -75,3 +75,5 @@ pub mod u_builder;
 pub mod u_builder_gen;
 pub mod u_chan;
 pub mod u_phase;
+pub mod w_loop;
+pub mod g_glue;
